@@ -11,19 +11,19 @@ import numpy as np
 from .. import pool, trajgen
 from ..core import stratified_sample
 
-# ext -> (HasFlush, CellOpt, TimeOpt, CanAppend, Crashes)
+# ext -> (HasFlush, CellOpt, TimeOpt, CanAppend, Crashes, ExtraOpt)
 FORMATS = {
-    "h5": (True, True, True, True, True),
-    "nc": (True, True, True, False, True),
-    "dcd": (True, True, False, False, True),       # no flush(): writes are unbuffered, header rewritten per timestep
-    "xtc": (True, True, False, False, True),
-    "trr": (False, True, False, False, False),
-    "mdcrd": (False, True, False, False, False),
-    "xyz": (False, False, False, False, False),
-    "lammpstrj": (False, False, False, False, False),
-    "gro": (False, True, True, False, False),
-    "pdb": (False, True, False, False, False),
-    "dtr": (False, False, False, False, False),
+    "h5": (True, True, True, True, True, True),
+    "nc": (True, True, True, False, True, False),
+    "dcd": (True, True, False, False, True, False),       # no flush(): writes are unbuffered, header rewritten per timestep
+    "xtc": (True, True, False, False, True, False),
+    "trr": (False, True, False, False, False, False),
+    "mdcrd": (False, True, False, False, False, False),
+    "xyz": (False, False, False, False, False, False),
+    "lammpstrj": (False, False, False, False, False, False),
+    "gro": (False, True, True, False, False, False),
+    "pdb": (False, True, False, False, False, False),
+    "dtr": (False, False, False, False, False, False),
 }
 NATOMS = {1: 11, 2: 12}     # atom count variants of the specification; variant 2 is realised as 12 atoms or as ONE atom (a shape numpy-style
 #                           assignment would broadcast), chosen per task by _alt()
@@ -41,6 +41,7 @@ CONSTANTS MaxFrames = %(MaxFrames)d
  TimeOpt = %(TimeOpt)s
  CanAppend = %(CanAppend)s
  Crashes = %(Crashes)s
+ ExtraOpt = %(ExtraOpt)s
  Dev = {}
 INVARIANT OneShotEquivalence
 INVARIANT Durable
@@ -151,7 +152,13 @@ def _arrays(ext, ids, s):
 def _write(f, ext, ids, s):
     xyz, L, A, t, na = _arrays(ext, ids, s)
     cell, tim = s["cell"], s["time"]
-    if ext in ("h5", "nc"):
+    if ext == "h5":
+        extra = {}
+        if s.get("extra"):
+            # the other optional per-frame arrays of the format, alternating between the two families the writer treats differently
+            extra = dict(alchemicalLambda=np.asarray(ids, dtype=np.float32) * 0.1) if na % 2 else dict(velocities=xyz * 0.5)
+        f.write(xyz, time=t if tim else None, cell_lengths=L if cell else None, cell_angles=A if cell else None, **extra)
+    elif ext == "nc":
         f.write(xyz, time=t if tim else None, cell_lengths=L if cell else None, cell_angles=A if cell else None)
     elif ext == "dcd":
         f.write(xyz, cell_lengths=L if cell else None, cell_angles=A if cell else None)
@@ -286,7 +293,8 @@ def _replay(task):
             if not st["ok"] and got[0] == "ok":
                 kind = ("atom count" if st["s"]["natoms"] != first_s["natoms"] else
                         ("%s cell" % ("add" if st["s"]["cell"] else "drop")) if st["s"]["cell"] != first_s["cell"] else
-                        ("%s time" % ("add" if st["s"]["time"] else "drop")))
+                        ("%s time" % ("add" if st["s"]["time"] else "drop")) if st["s"]["time"] != first_s["time"] else
+                        ("%s another per-frame field" % ("add" if st["s"].get("extra") else "drop")))
                 problems.append("ragged write accepted (%s)" % kind)
     if len(lines) < len(hist) and not problems:
         problems.append("child stopped after %d of %d steps" % (len(lines), len(hist)))
@@ -355,7 +363,7 @@ def run(ctx):
     for caps, exts in capsets.items():
         r = ctx.tlc("Writer", "Writer_%s.cfg" % "".join(_b(c)[0] for c in caps), workers=8,
                     cfg_text=CFG % dict(MaxFrames=mf, MaxWrite=mw, HasFlush=_b(caps[0]), CellOpt=_b(caps[1]), TimeOpt=_b(caps[2]),
-                                        CanAppend=_b(caps[3]), Crashes=_b(caps[4])))
+                                        CanAppend=_b(caps[3]), Crashes=_b(caps[4]), ExtraOpt=_b(caps[5])))
         emitted[str(caps)] = len(r.tr)
         per = 1500 if not ctx.thorough else 12000
         for ext in exts:
@@ -377,7 +385,7 @@ def run(ctx):
         if st != "ok":
             val = dict(problems=["%s: %s" % (st, str(val)[:300])])
         for pr in val["problems"][:1]:
-            hist_s = " ; ".join("%s%s" % (s["op"], "(%d,%s)" % (s["k"], "".join(str(int(v)) for v in (s["s"]["natoms"], s["s"]["cell"], s["s"]["time"]))) if s["op"] == "write" else "") for s in t[1]["hist"])
+            hist_s = " ; ".join("%s%s" % (s["op"], "(%d,%s)" % (s["k"], "".join(str(int(v)) for v in (s["s"]["natoms"], s["s"]["cell"], s["s"]["time"], s["s"].get("extra", False)))) if s["op"] == "write" else "") for s in t[1]["hist"])
             cls = "%s: %s" % (t[0], pr.split(":")[0] if pr.startswith(("flushed", "child", "crashed")) else pr)
             ctx.discrepancy(_known_key(ctx, t, val), "%s [%s]%s: %s (loaded=%s)" % (t[0], hist_s, " SIGKILL" if t[2] else "", pr, val.get("loaded")),
                             dict(task=[t[0], t[1], t[2]], observed=val), cls=cls)
